@@ -51,9 +51,27 @@ impl FrameBatch {
   pub fn get(&self, i: usize) -> (r: Option<&Msg>)
     ensures i >= self@.len() ==> r is None, i < self@.len() ==> r == Some(&self@[i as int])
   { unimplemented!() }
+  // R6: `batch[i].set_flags(f)` (IndexMut on a user type is outside Verus' subset)
+  #[verifier::external_body]
+  pub fn verif_set_flags(&mut self, i: usize, flags: MsgFlags)
+    requires i < old(self)@.len()
+    ensures final(self)@ == old(self)@.update(i as int, Msg { data: old(self)@[i as int].data, flags: flags })
+  { unimplemented!() }
+  // R8: `for frame in batch` (by value): the frames in index order
+  #[verifier::external_body]
+  pub fn verif_into_vec(self) -> (r: Vec<Msg>) ensures r@ == self@ { unimplemented!() }
   // iteration glue (rewrite R8): `for m in &batch` visits exactly self@ in index order
   #[verifier::external_body]
   pub fn verif_frames(&self) -> (r: &[Msg]) ensures r@ == self@ { unimplemented!() }
   #[verifier::external_body]
   pub fn clone(&self) -> (r: FrameBatch) ensures r@ == self@ { unimplemented!() }
+}
+
+impl vstd::std_specs::core::IndexSpecImpl<usize> for FrameBatch {
+  open spec fn index_req(&self, i: &usize) -> bool { *i < self@.len() }
+}
+impl core::ops::Index<usize> for FrameBatch {
+  type Output = Msg;
+  #[verifier::external_body]
+  fn index(&self, i: usize) -> (o: &Msg) ensures *o == self@[i as int] { unimplemented!() }
 }
